@@ -32,7 +32,7 @@ def decodable_oracle(kind, payload):
         return False
 
 
-async def _run(frames, net, consumers):
+async def _run(frames, net, consumers, paced=False):
     from pyplumio.protocol import AsyncProtocol
     rec = PI.Recorder()
     rec.install()
@@ -45,6 +45,12 @@ async def _run(frames, net, consumers):
         await PI.settle()
         for f in frames:
             reader.feed_data(G.enc(f["kind"], 0x56, f["sender"], f["tag"], 5, bytes(f["payload"])))
+            if paced:
+                # one frame at a time: everything a frame sets off (event dispatch tasks of the device) has run
+                # before the next one arrives; a foreign-recipient frame lets the producer flush its replies
+                reader.feed_data(G.enc(0x31, 0x45, 0x56, 0, 5, b""))
+                for _ in range(6):
+                    await PI.settle()
         # frames for another recipient: the reader ignores them, each one drives one producer iteration (flushes writes)
         for _ in range(len(frames) + 40):
             reader.feed_data(G.enc(0x31, 0x45, 0x56, 0, 5, b""))
@@ -77,7 +83,8 @@ class C09(Prop):
     rule = ("sequences of 1-14 frames through the real AsyncProtocol (fake transport, virtual-time loop): captured valid frames of 8 decodable "
             "kinds, controller requests (program version, check device), frames with a valid envelope but an undecodable payload (every "
             "truncation point of a captured payload, random bytes; decodability decided by the real decoder on a fresh device), frames from "
-            "senders without a device class (0x56, 0x00) and from ecoSTER; 1-3 consumers, often more bad frames than consumers.  Non-trivial = "
+            "senders without a device class (0x56, 0x00) and from ecoSTER; 1-3 consumers, often more bad frames than consumers; frames arrive in "
+            "one burst or one at a time with the loop settled in between (paced).  Non-trivial = "
             "at least one undecodable / device-less frame followed by a valid one; distinct by case content.")
     assumptions = ["whether a payload decodes is an oracle (the real decoder, evaluated on a fresh device)",
                    "`answered` = the reply is transmitted or waiting in the write queue when the input ends"]
@@ -111,7 +118,9 @@ class C09(Prop):
             net = [[rng.randrange(256) for _ in range(4)] for _ in range(3)] + [rng.random() < 0.5] + \
                   [[rng.randrange(256) for _ in range(4)] for _ in range(3)] + \
                   [True, rng.randrange(5), rng.randrange(101), rng.random() < 0.5, list(rng.choice(["", "home", "zażółć", "x" * 32]).encode())]
-            cases.append({"kind": "random", "frames": frames, "net": net, "consumers": rng.choice([1, 2, 3, 3])})
+            paced = rng.random() < 0.5
+            cases.append({"kind": "paced" if paced else "burst", "frames": frames, "net": net, "consumers": rng.choice([1, 2, 3, 3]),
+                          "paced": paced})
         return cases
 
     def _pframes(self, c):
@@ -121,7 +130,7 @@ class C09(Prop):
 
     def run_impl(self, c):
         pf = self._pframes(c)
-        r = vloop.run(_run, c["frames"], c["net"], c["consumers"])
+        r = vloop.run(_run, c["frames"], c["net"], c["consumers"], c.get("paced", False))
         valid_tags = {p[0] for p in pf if p[3] and p[1] in (0x45, 0x51)}
         handed_valid = [t for _, t, _ in r["calls"] if t in valid_tags]
         replies = []
